@@ -248,9 +248,16 @@ def readEntryLong (isI : Bool) (el : Txt) : Except Err (List String) := do
     let lb ← need (matchText el (lit "mark") true)
     pure [toStr t1, toStr (replace (strip lb) (lit "\"\"") (lit "\""))]
 
+/-- `re.search(r'class ?= ?"IntervalTier"', s)` (after fix df3976c; no anchors): is there a match? -/
+def matchClass (s : Txt) : Bool :=
+  (findAll s (lit "class")).any fun i =>
+    match head s (lit "class") i with
+    | none => false
+    | some j => startsAt s (lit "\"IntervalTier\"") j
+
 /-- the body of the tier loop of `_parseNormalTextgrid` on one `tierTxt` -/
 def readTierLong (tt : Txt) : Except Err RawTier := do
-  let isI := Txt.contains tt (lit "class = \"IntervalTier\"")
+  let isI := matchClass tt
   let d := splitKw tt (lit (if isI then "intervals" else "points"))
   let hdr := d.headD #[]
   let els := d.drop 1
